@@ -6,17 +6,30 @@ Import ListNotations.
 Open Scope list_scope.
 
 Section Lemmas.
+Variable d : dialect.
 Variable ctor_ok : string -> string -> bool -> Prop.
+Notation compile := (Compile.compile d).
+Notation compile_block := (Compile.compile_block d).
+Notation compile_list := (Compile.compile_list d).
+Notation compile_arms := (Compile.compile_arms d).
+Notation compile_sarms := (Compile.compile_sarms d).
+Notation switch_u := (Compile.switch_u d).
+Notation switch_s := (Compile.switch_s d).
+Notation nv := (Compile.nv d).
+Notation nvb := (Compile.nvb d).
+Notation nva := (Compile.nva d).
+Notation nvs := (Compile.nvs d).
+
 Variable sfuns : list (var * (list var * block)).
 Variable gfuncs : list (var * (list var * list gstmt)).
 Variable gvars : list (var * gexpr).
 
 Notation wfe := (wfe true ctor_ok).
 Notation wfb := (wfb true ctor_ok).
-Notation vrel := (vrel ctor_ok gfuncs).
-Notation erel := (erel ctor_ok gfuncs).
-Notation peval := (peval ctor_ok gfuncs).
-Notation pevals := (pevals ctor_ok gfuncs).
+Notation vrel := (vrel d ctor_ok gfuncs).
+Notation erel := (erel d ctor_ok gfuncs).
+Notation peval := (peval d ctor_ok gfuncs).
+Notation pevals := (pevals d ctor_ok gfuncs).
 Notation Geval := (Geval gfuncs gvars).
 Notation Gevals := (Gevals gfuncs gvars).
 Notation Gexec := (Gexec gfuncs gvars).
@@ -137,7 +150,7 @@ Lemma tuple_pure (gvs:list gval) n :
   lib_pure gops (tuple_fn n) gvs = Some (GVStruct (tuple_struct (List.length gvs)) (combine tuple_fields gvs)).
 Proof.
   intros -> T.
-  destruct gvs as [|a [|b [|c [|d gvs]]]]; cbn [List.length] in *; destruct T as [T|T]; try discriminate T;
+  destruct gvs as [|a [|b [|c [|d0 gvs]]]]; cbn [List.length] in *; destruct T as [T|T]; try discriminate T;
     reflexivity.
 Qed.
 
@@ -161,10 +174,11 @@ Lemma peval_Geval_mut env :
   (forall k es gvs, pevals env k es gvs -> forall rest t rvs t',
      Gevals env rest t rvs t' -> Gevals env (compile_list k es ++ rest) t (gvs ++ rvs) t').
 Proof.
-  apply (peval_mutind ctor_ok gfuncs env
+  apply (peval_mutind d ctor_ok gfuncs env
        (fun k a gv => forall t, Geval env (compile k a) t gv t)
        (fun k es gvs => forall rest t rvs t', Gevals env rest t rvs t' ->
                           Gevals env (compile_list k es ++ rest) t (gvs ++ rvs) t'));
+    try (intros; apply G_func; fail);
     try (intros; cbn [compile]; auto using G_int, G_str, G_bool, G_var, G_func; fail).
   - intros. cbn [compile]. eapply G_arith; eauto.
   - intros. cbn [compile]. eapply G_and_false; eauto.
